@@ -177,3 +177,17 @@ def mnemonic_valid(words):
     ent_bits = len(bits) * 32 // 33
     ent = int(bits[:ent_bits], 2).to_bytes(ent_bits // 8, 'big')
     return bits[ent_bits:] == bin(int.from_bytes(hashlib.sha256(ent).digest(), 'big'))[2:].zfill(256)[:len(bits) - ent_bits]
+
+
+def offcurve_twin(curve, pub):
+    """33 bytes of the compressed-key shape whose x coordinate (pub's x with one low bit flipped) lies on no point of the curve"""
+    from cryptography.hazmat.primitives.asymmetric import ec
+    c = ec.SECP256K1() if curve == 'sp' else ec.SECP256R1()
+    for bit in range(0, 64):
+        x = bytearray(pub)
+        x[32 - bit // 8] ^= 1 << (bit % 8)
+        try:
+            ec.EllipticCurvePublicKey.from_encoded_point(c, bytes(x))
+        except ValueError:
+            return bytes(x)
+    raise AssertionError('no off-curve neighbour found')
